@@ -43,6 +43,7 @@ fn show(log: &[Event]) -> String {
 }
 
 pub fn run(case: &str) -> String {
+    crate::util::note_current(case);
     let f: Vec<&str> = case.split(' ').collect();
     let _ = verif::take_log();
     let timed_out = Arc::new(AtomicBool::new(false));
